@@ -171,3 +171,68 @@ fn c05_remove_wrapping_quotes() {
         assert!(bytes_eq(out.as_bytes(), &raw[.. len]));
     }
 }
+
+/// A variable with an empty value in the middle of the info string keeps its
+/// place: every later pair stays aligned, the empty value is reported as such.
+#[cfg(kani)]
+fn quake3_empty_value() {
+    let addr = any_addr_v4();
+    let mut e = Enc::new();
+    e.le32(0xFFFF_FFFF).bytes(b"statusResponse\n");
+    e.bytes(b"\\hostname\\Nm\\e\\\\mapname\\M\\maxclients\\16\\g\\x\n");
+    world().push_data(e.v);
+    let r = quake::three::query(&addr, None);
+    match &r {
+        Ok(x) => {
+            assert!(x.name == "Nm" && x.map == "M" && x.players_maximum == 16);
+            assert!(x.unused_entries.len() == 2);
+            match x.unused_entries.get("e") {
+                Some(v) => assert!(v == ""),
+                None => assert!(false),
+            }
+            match x.unused_entries.get("g") {
+                Some(v) => assert!(v == "x"),
+                None => assert!(false),
+            }
+            assert!(x.players.len() == 0);
+        }
+        Err(_) => assert!(false),
+    }
+    core::mem::forget(r);
+}
+c05!(c05_quake3_empty_value_in_the_middle, quake3_empty_value());
+
+/// Quake 2 / 3 player line with a symbolic name token (every 3 printable bytes
+/// without a space): exactly one player, the name is the token with one pair of
+/// wrapping quotes removed - nothing else is trimmed.
+#[cfg(kani)]
+#[kani::proof]
+#[kani::unwind(14)]
+#[kani::stub(alloc::fmt::format, stub_format)]
+#[kani::stub(core::str::from_utf8, stub_from_utf8)]
+#[kani::stub(core::slice::memchr::memchr, stub_memchr)]
+fn c05_player_name_token_any_3_bytes() {
+    let n: [u8; 3] = kani::any();
+    let mut i = 0;
+    while i < 3 {
+        kani::assume(n[i] > 0x20 && n[i] < 0x7f);
+        i += 1;
+    }
+    let line = [b'5', b' ', b'3', b'0', b' ', n[0], n[1], n[2], b'\n'];
+    let r = quake::verif_unit::get_players_two(&line);
+    match &r {
+        Ok(ps) => {
+            assert!(ps.len() == 1);
+            assert!(ps[0].score == 5 && ps[0].ping == 30 && ps[0].address.is_none());
+            if n[0] == b'"' && n[2] == b'"' {
+                assert!(bytes_eq(ps[0].name.as_bytes(), &n[1 .. 2]));
+                kani::cover!(true, "wrapped name");
+            } else {
+                assert!(bytes_eq(ps[0].name.as_bytes(), &n));
+                kani::cover!(n[0] == b'"', "one-sided quote kept");
+            }
+        }
+        Err(_) => assert!(false),
+    }
+    core::mem::forget(r);
+}
